@@ -531,8 +531,16 @@ def reloads_in_a_row(tier, seed):
             f = chain_case([dict(routes=r, hold=180) for r in chain], up)
             if f:
                 fails.append(f)
+    # one of the reloads also changes a session parameter (the session is re-established instead of reconfigured)
+    for chain in itertools.product(route_sets[:4], repeat=3):
+        for holds in ((180, 90, 90), (180, 90, 180), (180, 180, 90)):
+            for up in (True, False):
+                evals += 1
+                f = chain_case([dict(routes=r, hold=h) for r, h in zip(chain, holds)], up)
+                if f:
+                    fails.append(f)
     fails.sort(key=lambda f: len(str(f['input'])))
-    return {'evaluations': evals, 'distinct_nontrivial': evals, 'exhaustive': True, 'bound': f'every chain of 3 configurations (thorough: also 4) over {len(route_sets)} route sets (3 prefixes, an attribute-only change, the empty set), the reloads issued back to back with no turn of the peer loop in between, session up or down meanwhile', 'rule': 'one case = (chain of configurations, session state)', 'samples': [{'configurations': [{'A': 10, 'B': None}, {'A': 10}, {'A': 10}]}], 'failures': fails[:20]}
+    return {'evaluations': evals, 'distinct_nontrivial': evals, 'exhaustive': True, 'bound': f'every chain of 3 configurations (thorough: also 4) over {len(route_sets)} route sets (3 prefixes, an attribute-only change, the empty set), the reloads issued back to back with no turn of the peer loop in between, session up or down meanwhile; and 3-chains in which one reload changes the hold time (re-establishment)', 'rule': 'one case = (chain of configurations, session state)', 'samples': [{'configurations': [{'A': 10, 'B': None}, {'A': 10}, {'A': 10}]}], 'failures': fails[:20]}
 
 
 @replayer('C17', 'reloads-in-a-row')
